@@ -384,14 +384,33 @@ func VerifH_TreeFlushRoundTrip() {
 	}
 	nLog, hLog := &verifLog{}, &verifLog{}
 	buf := make([]byte, 4096)
-	nOff, _, wN, wH, err := t.root.writeTo(nLog, hLog, &WriteOpts{reportProgress: func(int, int, int) {}}, buf)
-	verifrt.Assert(err == nil, "tree written")
-	verifrt.Assert(wN == int64(len(nLog.b)) && wH == int64(len(hLog.b)), "reported sizes are the bytes written")
-	t2 := verifNewTree(verifrt.Param("nodeSize"))
-	t2.nLog, t2.hLog = nLog, hLog
 	verifrt.Stub("(*embedded/tbtree.TBtree).nodeAt", func(t *TBtree, offset int64, updateCache bool) (node, error) {
 		return t.readNodeAt(offset)
 	})
+	verifrt.Stub("(*embedded/tbtree.TBtree).cachePut", func(t *TBtree, n node) {})
+	// bulks2 > 0: a first flush that commits (in-memory versions are dropped, flushed nodes
+	// become references into the node log), then bulks2 more symbolic inserts, then the flush
+	// that is loaded back: older versions then sit in an EARLIER chunk of the history log
+	if bulks2 := verifrt.Param("bulks2"); bulks2 > 0 {
+		t.nLog, t.hLog = nLog, hLog
+		_, _, _, _, err := t.root.writeTo(nLog, hLog, &WriteOpts{commitLog: true, reportProgress: func(int, int, int) {}}, buf)
+		verifrt.Assert(err == nil, "first flush")
+		for b := 0; b < bulks2; b++ {
+			k := byte(10)
+			if verifrt.Bool("otherKey2") {
+				k = 15
+			}
+			v := verifrt.Byte("v2")
+			verifrt.Assert(t.bulkInsert([]*KVT{{K: []byte{k}, V: []byte{v}}}) == nil, "insert after the first flush")
+			m.put(k, v, m.ts+1)
+		}
+	}
+	n0, h0 := int64(len(nLog.b)), int64(len(hLog.b))
+	nOff, _, wN, wH, err := t.root.writeTo(nLog, hLog, &WriteOpts{BaseNLogOffset: n0, BaseHLogOffset: h0, reportProgress: func(int, int, int) {}}, buf)
+	verifrt.Assert(err == nil, "tree written")
+	verifrt.Assert(wN == int64(len(nLog.b))-n0 && wH == int64(len(hLog.b))-h0, "reported sizes are the bytes written")
+	t2 := verifNewTree(verifrt.Param("nodeSize"))
+	t2.nLog, t2.hLog = nLog, hLog
 	root, err := t2.readNodeAt(nOff)
 	verifrt.Assert(err == nil, "root loaded")
 	verifrt.Reach("loaded")
@@ -406,7 +425,8 @@ func VerifH_TreeFlushRoundTrip() {
 	i := m.find(probe)
 	v, ts, hc, gerr := root.get([]byte{probe})
 	offset, limit := verifrt.U64("offset"), verifrt.Int("limit")
-	verifrt.Assume(limit >= 1 && limit <= bulks+2 && offset <= uint64(bulks)+3)
+	total := bulks + verifrt.Param("bulks2")
+	verifrt.Assume(limit >= 1 && limit <= total+2 && offset <= uint64(total)+3)
 	tvs, hcount, herr := root.history([]byte{probe}, offset, desc, limit)
 	lo, hi := verifrt.U64("lo"), verifrt.U64("hi")
 	verifrt.Assume(lo <= hi && hi >= 1 && hi <= m.ts+1)
